@@ -925,7 +925,7 @@ func c6dumpModule(m *meta.Module) string {
 }
 
 func c06Statements(ctx *core.Ctx, r *gen.Rng) {
-	n := ctx.Scale(12, 300)
+	n := ctx.Scale(12, 60)
 	if ctx.Tier == "search" {
 		n = 240
 	}
